@@ -142,7 +142,9 @@ theorem rq0_raise (m : Event) : Rel RQ0 (raiseMeta env m) := by
     · rw [hw.sent]; simp
     · rw [hw.intQ]; simp [entriesOf, internals]
 
-theorem rq0_modify (f : IState σ → IState σ) (hf : QFrameFn f) : Rel RQ0 (M.modify f : M σ ω Unit) := by
+theorem rq0_modify (f : IState σ → IState σ)
+    (hf : ∀ st, (f st).time = st.time ∧ (f st).listeners = st.listeners ∧ (f st).intQ = st.intQ ∧
+      (f st).extQ = st.extQ ∧ (f st).sentEvents = st.sentEvents) : Rel RQ0 (M.modify f : M σ ω Unit) := by
   intro rs
   obtain ⟨t, l, i, e, s⟩ := hf rs.st
   refine ⟨t, l, ?_, ?_, [], [], ?_, ?_, ?_, fun _ => rfl⟩
@@ -224,11 +226,15 @@ theorem rq0_send (hq : Quiet env) (ev : Sent) : Rel RQ0 (sendOne env ev) := by
 
 theorem rq0_respects (hq : Quiet env) : RespectsS env (RQ0 : RS σ ω → RS σ ω → Prop) where
   pre := RQ0_pre
-  modify f hf := rq0_modify f hf
+  modify f hf := rq0_modify f (fun st => ⟨(hf st).1, (hf st).2.1, (hf st).2.2.1, (hf st).2.2.2.1, (hf st).2.2.2.2.1⟩)
   emit e _ := rq0_emit e
   raise m := rq0_raise env m
-  contract := contract_of_prims env RQ0_pre (fun f hf => rq0_modify f hf) (fun _ _ _ _ _ => rq0_emit _)
+  contract := contract_of_prims env RQ0_pre
+    (fun f hf => rq0_modify f (fun st => ⟨(hf st).1, (hf st).2.1, (hf st).2.2.1, (hf st).2.2.2.1, (hf st).2.2.2.2.1⟩))
+    (fun _ _ _ _ _ => rq0_emit _)
   send ev := rq0_send env hq ev
+  markEnter n := rq0_modify _ (fun st => ⟨rfl, rfl, rfl, rfl, rfl⟩)
+  markFire n := rq0_modify _ (fun st => ⟨rfl, rfl, rfl, rfl, rfl⟩)
 
 /-- with the consumption of at most one entry, which was due -/
 structure RQP (rs rs' : RS σ ω) : Prop where
